@@ -333,6 +333,19 @@ package engine
 //@   props C07 C18
 //@   pure
 //@   requires row != nil && len(row.Vals) >= 1 && (forall k sql.ColumnReference :: has(colToIdx, k) ==> 0 <= colToIdx[k] && colToIdx[k] < len(row.Vals))
+//@   ensures[nogroup; C07] len(groupBy) == 0 ==> result == ""
+//@   loop 1 invariant len(groupBy) == 0 ==> key == ""
+
+// AVG over one group (C07). "The abstract column": avVal(i) is the value of the averaged column in input row i, avSum(i) the sum of
+// the first i values; the result must be the sum divided by the count, rounded once (roundAvg), whatever the order of the rows.
+//@ spec abstract avVal(i int) int64
+//@ spec abstract avSum(i int) int
+//@ axiom avSum0: avSum(0) == 0
+//@ axiom avSumS: forall i int :: 0 <= i ==> avSum(i+1) == avSum(i) + avVal(i)
+//@ spec pred avgInput(sl sql.SelectList, groupBy []sql.ColumnReference, rows []*storage.Row) {
+//@        len(groupBy) == 0 && len(sl) == 1 && typeof(vep(sl,0)) == typ(sql.Average) && len(rows) >= 1 && ascRows(rows) &&
+//@        (forall i int :: 0 <= i && i <= len(rows) ==> -4611686018427387904 <= avSum(i) && avSum(i) <= 4611686018427387904) &&
+//@        (forall i int :: 0 <= i && i < len(rows) ==> rows[i] != nil && len(rows[i].Vals) == 1 && typeof(rows[i].Vals[0]) == typ(int64) && rows[i].Vals[0].(int64) == avVal(i)) }
 
 //@ spec pred hasAgg(sl sql.SelectList) { exists i int :: 0 <= i && i < len(sl) && sql.isAggCol(sl, i) }
 
@@ -345,9 +358,16 @@ package engine
 //@   ensures[empty.implicit; C07] hasAgg(selectList) && len(groupBy) == 0 && len(rows) == 0 && err == nil ==> len(result0) == 1
 //@   ensures[empty.grouped; C07] hasAgg(selectList) && len(groupBy) > 0 && len(rows) == 0 ==> err == nil && len(result0) == 0
 //@   ensures[groups.bound; C07] err == nil && len(rows) > 0 ==> len(result0) <= len(rows)
+//@   ensures[avg.exact; C07] old(avgInput(selectList, groupBy, rows)) && err == nil ==> len(result0) == 1 && typeof(result0[0].Vals[0]) == typ(int64) &&
+//@              result0[0].Vals[0].(int64) == roundAvg(avSum(old(len(rows))), old(len(rows)))
 //@   ensures_assumed[shape] err == nil && typeof(vep(selectList,0)) != typ(sql.Asterisk) ==> rowsWide(len(selectList), result0)
 //@   ensures_assumed[star] typeof(vep(selectList,0)) == typ(sql.Asterisk) ==> err == nil && result0 == rows && (forall i int :: 0 <= i && i < len(rows) ==> rows[i] == old(rows[i]))
 //@   loop 2 invariant 0 <= rowIdx && rowIdx <= rangeindex + 1
+//@   loop 2 invariant[avg.exact; C07] old(avgInput(selectList, groupBy, rows)) ==> len(rows) == old(len(rows)) && (rangeindex < 0 ? rowIdx == 0 && !has(groupKeyToRow, "") :
+//@              rowIdx == 1 && has(groupKeyToRow, "") && groupKeyToRow[""] == 0 && rows[0] == old(rows[0]) && typeof(rows[0].Vals[0]) == typ(int64) &&
+//@              rows[0].Vals[0].(int64) == roundAvg(avSum(rangeindex+1), rangeindex+1)) &&
+//@              (forall i int :: rangeindex < i && i < len(rows) ==> rows[i] == old(rows[i]) && (i > 0 ==> rows[i].Vals[0] == old(rows[i].Vals[0])))
+//@   loop 4 invariant[avg.exact; C07] old(avgInput(selectList, groupBy, rows)) ==> 1 <= idx && len(rows) == old(len(rows)) && rows[0] == atloop(rows[0])
 
 // ---- statements (C05 C13 C14 C18) ----
 
